@@ -4,6 +4,7 @@ import glob, json, os, re, time
 import vlib
 
 TARGETS = ["Base/Num.vo", "C14/ER.vo", "C14/Model.vo", "C14/Spec.vo", "C14/ProofsER.vo", "C14/Corr.vo",
+           "C14/SModel.vo", "C14/ProofsHist.vo", "C14/CorrH.vo",
            "C14/ProofsCont.vo", "C14/ProofsDisc.vo", "C14/ProofsNorm.vo", "C14/ProofsCdf.vo", "C14/ProofsCdf2.vo", "C14/ProofsNorm2.vo",
            "C14/ProofsRegress.vo", "C14/VModel.vo", "C14/ProofsVec.vo", "C14/Props.vo"]
 PROPS = ["C14/Props.v"]
@@ -37,6 +38,7 @@ def match_known(fail, findings):
         if fail["fam"] not in fams or fail["kind"] not in m.get("kinds", []):
             continue
         env = {"ps": fail["p"].get("ps") or [], "zs": fail["p"].get("zs") or [], "x": fail["x"], "v": fail.get("v") or {},
+               "ops": [o.get("k") for o in (fail.get("ops") or [])], "exp": fail.get("expected") or "",
                "fam": fail["fam"], "abs": abs, "sum": sum, "True": True, "False": False}
         try:
             if eval(m.get("when", "False"), {"__builtins__": {}}, env):
@@ -109,6 +111,51 @@ def hunt(ctx, binary, bad):
     return {"failures": [], "tried": 0}
 
 
+# types whose mutators are transitions of the state model coq/C14/SModel.v (proved coherent over all histories)
+STATE_MODELLED = {"scalarDistribution": ["BetaDistribution", "BinomialDistribution", "CategoricalDistribution", "CauchyDistribution",
+                                         "ChiSquaredDistribution", "DeltaDistribution", "ExponentialDistribution", "GParetoDistribution",
+                                         "GammaDistribution", "GeneralizedGammaDistribution", "GeometricDistribution", "GevDistribution",
+                                         "LaplaceDistribution", "NegativeBinomialDistribution", "NormalDistribution", "ParetoDistribution",
+                                         "PoissonDistribution", "PowerLawDistribution"]}
+
+
+def inventory(ctx, binary):
+    """go/ast inventory of every method that writes its receiver in the three distribution packages, against the
+    committed one (corpus/C14/mutators.json): a new mutator, or a mutator writing other fields / in another order,
+    is outside the state model."""
+    rc, out = vlib.sh([binary, "--extra", "inventory", "--replay", vlib.REPO, "--out", ctx.dir], timeout=120, env=vlib.go_env())
+    ip = os.path.join(ctx.dir, "inventory.json")
+    if rc != 0 or not os.path.exists(ip):
+        ctx.violation({"obligation": "C14 mutator inventory", "log": out[-2000:]}, False, "mutator inventory could not be taken")
+        return
+    key = lambda t: (t["pkg"], t["type"])
+    now = {key(t): t for t in json.load(open(ip))["types"]}
+    exp = {key(t): t for t in json.load(open(os.path.join(vlib.ROOT, "corpus/C14/mutators.json")))["types"]}
+    diffs = []
+    for k in sorted(set(now) | set(exp)):
+        a, b = exp.get(k), now.get(k)
+        if a is None:
+            if b["methods"]:
+                diffs.append("new type %s.%s with mutators %s" % (k[0], k[1], [m["name"] for m in b["methods"]]))
+        elif b is None:
+            diffs.append("type %s.%s is gone" % k)
+        else:
+            if a["fields"] != b["fields"]:
+                diffs.append("%s.%s: fields %s, were %s" % (k[0], k[1], b["fields"], a["fields"]))
+            ma, mb = {m["name"]: m["writes"] for m in a["methods"]}, {m["name"]: m["writes"] for m in b["methods"]}
+            for n in sorted(set(ma) | set(mb)):
+                if ma.get(n) != mb.get(n):
+                    diffs.append("%s.%s.%s writes %s, modelled as %s" % (k[0], k[1], n, mb.get(n), ma.get(n)))
+    nm = sum(len(t["methods"]) for t in now.values())
+    modelled = sum(len(now[(p, t)]["methods"]) for p, ts in STATE_MODELLED.items() for t in ts if (p, t) in now)
+    ctx.cov["mutator_inventory"] = {"types": len(now), "receiver_writing_methods": nm, "state_modelled_methods": modelled,
+                                    "differences": diffs}
+    ctx.oblige(1, 0 if diffs else 1)
+    ctx.log("mutator inventory: %d types, %d receiver-writing methods (%d are transitions of the state model), %d differences" % (
+        len(now), nm, modelled, len(diffs)))
+    return diffs
+
+
 def run(ctx):
     ctx.cov["trusted_base"] = vlib.TRUSTED_BASE_COMMON + [
         "Coq-Interval 4.x reflexive tactic `interval` (per-case certificates; may use primitive 63-bit integers/floats inside vm_compute)",
@@ -132,6 +179,7 @@ def run(ctx):
                       "tie lost: the C14 harness no longer builds against the library")
         return
     n = 400 if ctx.tier == "quick" else 6000
+    inv_diffs = inventory(ctx, binary)
     bad, incons = corr(ctx, binary, n)
     h = hunt(ctx, binary, bad + incons)
     ctx.cov["hunt"] = {"tried": h.get("tried"), "failures": len(h.get("failures", []))}
@@ -151,12 +199,19 @@ def run(ctx):
         if key in reported:
             continue
         reported.add(key)
-        ctx.violation({"case": {"fam": f["fam"], "fn": f["fn"] if f["fn"] in ("LogPdf", "LogCdf", "Cdf") else "LogPdf",
-                                "p": f["p"], "x": f["x"], "v": f.get("v")}, "failure": f,
+        case = {"fam": f["fam"], "fn": f["fn"] if f["fn"] in ("LogPdf", "LogCdf", "Cdf") else "LogPdf",
+                "p": f["p"], "x": f["x"], "v": f.get("v")}
+        if f.get("ops") is not None:
+            case["ops"] = f["ops"]      # mutator history between the constructor and the method
+        ctx.violation({"case": case, "failure": f,
                        "broken": [x["target"] for x in failures] + (["correspondence C14.Corr"] if bad else [])},
                       True, "%s %s: %s of %s at x=%s with parameters %s: observed %s, expected %s" % (
                           f["fam"], f["kind"], f["fn"], f["fam"], (f.get("v") or {}).get("x", f["x"]),
                           f.get("v") or f["p"], f["observed"], f["expected"]))
+    if inv_diffs and not unknown:
+        ctx.violation({"obligation": "C14 mutator inventory (corpus/C14/mutators.json)", "differences": inv_diffs[:20]}, False,
+                      "tie lost: the exported mutators of the distribution types differ from the ones the state model covers: "
+                      + "; ".join(inv_diffs[:3]))
     if not unknown:
         for f in failures:
             ctx.violation({"obligation": f["target"], "lemma": f["lemma"], "errors": f["errors"]}, False,
